@@ -762,3 +762,13 @@ PROPERTIES["C16"]["mirsym"].append(
       params={"quick": {"max_endpoints": 2, "reports": 3}, "thorough": {"max_endpoints": 3, "reports": 4}}, budget={"quick": 300, "thorough": 1500},
       required_covers=["c16.bookkeeping.completed", "c16.bookkeeping.nothing-to-wait-for"]))
 PROPERTIES["C16"]["manifest"]["text"] += " The socket core's shutdown bookkeeping waits for exactly the running listeners and sessions: the stop report that empties both lists, and only that one, completes the phase; untracked or repeated reports change nothing."
+PROPERTIES["C06"]["mirsym"].append(
+    M("c06_plain_client_arbitrary_stream", "d_c06", "plain_client_arbitrary_stream",
+      {"quick": "PLAIN connector (REQ), ALLOW_ZMTP2 both values, credentials 1+1 symbolic bytes, peer stream = 84 fully symbolic bytes delivered in one read (64-byte greeting + 20 bytes: enough for WELCOME + READY); exploration stops when the Data phase is entered",
+       "thorough": "credentials 2+2 symbolic bytes, 92 symbolic peer bytes"},
+      params={"quick": {"n": 84, "cred_len": 1}, "thorough": {"n": 92, "cred_len": 2}},
+      budget={"quick": 600, "thorough": 3000},
+      required_covers=["c06.plain-client.rejected", "c06.plain-client.handshake-complete-after-welcome"]))
+PROPERTIES["C06"]["manifest"]["text"] += " Connector role: for EVERY peer stream of that length a PLAIN connector reports a completed handshake / reaches the Data phase only if the peer's greeting named PLAIN and a WELCOME command reached the mechanism; it never emits WELCOME itself."
+PROPERTIES["C06"]["manifest"]["note"] = PROPERTIES["C06"]["manifest"]["note"].replace("PLAIN connector, ", "")
+PROPERTIES["C06"]["outside"] = "CURVE/NOISE_XX handshakes (cryptography, non-default features), streams longer than the bound"
